@@ -505,6 +505,9 @@ def h_context_snapshot(spec):
     E.run_function(spec, "_context_snapshot", body)
 
 
+h_compute.shards = 16
+h_pre_checks.shards = 16
+h_post_checks.shards = 16
 TASKS = [h_stable_equal, h_compute, h_pre_checks, h_post_checks, h_iso_now, h_timing, h_context_snapshot]
 
 
